@@ -189,7 +189,7 @@ def regenerate(ctx, harness):
             continue
         x = slots[0]
         y = slots[1] if len(slots) > 1 else 0
-        L.append("def %s : Template := { code := [%s], x := %d, y := %d }" % (name, ",\n    ".join(terms), x, y))
+        L.append("def %s : Template := ⟨[%s],\n    %d, %d⟩    -- code, x slot, y slot" % (name, ",\n    ".join(terms), x, y))
         if len(slots) > 2:
             L.append("def %s_c : Nat := %d" % (name, slots[2]))
         names.append(name)
